@@ -36,6 +36,8 @@ manifest = {
     'engines': [
         {'name': 'PyVC', 'path': 'vf/', 'serves_properties': sorted(PROPS),
          'kind_free_text': 'VC generator for a Python subset (ast -> z3/cvc5): forward symbolic execution with cut points at annotated loops; sidecar contracts in contracts/, executable spec in specs/'},
+        {'name': 'CxxVC', 'path': 'vf/cxxvc.py', 'serves_properties': sorted(p for p in PROPS if PROPS[p].get('static') and any('cxx_check' in x for x in PROPS[p]['static'])),
+         'kind_free_text': 'VC generator for a C++ subset over clang JSON ASTs of instantiated header templates and prophyc-generated code (bit-vector semantics, regions for byte memory, contracts in contracts/cxx_*.py), discharged by z3/cvc5'},
         {'name': 'stand-ins', 'path': 'standins/', 'serves_properties': sorted(p for p in PROPS if PROPS[p].get('standins')),
          'kind_free_text': 'bounded differential harnesses (real prophyc/prophy vs executable spec over an enumerated schema family); labelled bounded, never counted as proved'},
     ],
